@@ -3278,6 +3278,7 @@ impl<'a> Lifter<'a> {
             // the shape of a one-dimensional array is its length
             ("raw_dim", "RArr") if args.is_empty() => return Ok(v(format!("{}.len", recv.text), "int")),
             ("len", "Seq<int>") => return Ok(v(format!("({}.len() as int)", recv.text), "int")),
+            ("len", t) if t.starts_with("Seq<") && args.is_empty() => return Ok(v(format!("({}.len() as int)", recv.text), "int")),
             ("sum", "RArr") => {
                 // the summand of a compound array expression is a named function (lemmas can then name it); only in units
                 // that ask for it (`named_sums`), so that existing proofs keep their term shapes
